@@ -153,7 +153,7 @@ class C11(Prop):
         return null_unusable(lines)
 
     predicates = {"las3_input": pred_las3, "quoted_text_cells": pred_quoted, "empty_null_value": pred_empty_null}
-    quick = {"runs": 1500, "wall": 45}
+    quick = {"runs": 2500, "wall": 60}
     thorough = {"runs": 100000, "wall": 900}
 
     def gen(self, st, tier, index):
